@@ -99,7 +99,7 @@ CHECKS = {
         technique="Lean 4 invariant proofs over the CPU bookkeeping + differential ovniemu runs + recomputation oracle",
         design="DESIGN.md §5 C05"),
     "C06": dict(
-        text=("Theorems (Props/C06.lean, 51) over a mechanism-level transcription of bay.c (growing dirty list processed by index, "
+        text=("Theorems (Props/C06.lean, 77) over a mechanism-level transcription of bay.c (growing dirty list processed by index, "
               "ordered enabled-callback lists, dirty/emit/flush phases), mux.c (cb_select, cb_input, DIRTY_WRITE/ALLOW_DUP "
               "outputs), track.c, thread_select_running/active and connect_cpu: for ONE mux in any network satisfying the frame "
               "condition, any set of writes to the select and input channels in any order followed by propagation with ANY order "
@@ -117,8 +117,14 @@ CHECKS = {
               "channels, so after EVERY accepted event and every accepted history the thread-track outputs equal thView and "
               "the CPU-track outputs equal cpuView (emu_event, emu_init, emu_history, emu_run_driver; one exception stated "
               "and witnessed: a CPU track with a non-null default shows null until th_running is first written, as in C). "
-              "These are VALUES of rows; the emit callbacks / prv.c duplicate flags and the task-layer hook remain "
-              "hypotheses (OPEN, tested by the e2e run). Tie: X1 the real chan.c/"
+              "The emit phase (prv_register, the five PRV flags with last_value, the emit loop of bay_propagate) is modelled "
+              "too: for every accepted event it fails exactly when the record function fails (forbidden value 0) and otherwise "
+              "the lines it writes are a permutation of a list whose EFFECTIVE lines (those changing what their row shows) are "
+              "exactly the model rows of View.records, system rows being written exactly (emit_step, emu_event_emit, "
+              "emu_event_sys, emu_step_lines, emu_run_emit_driver); the literal equality lines = records is refuted by decide "
+              "examples (first emission of null, re-selected EMITDUP/SKIPDUPNULL channels). The task-layer hook of nOS-V/"
+              "Nanos6 is proved to be bay writes (hookSim_task, emu_event_task). OPEN: coupling of the task layer's own channel "
+              "copy with the thread channels along a history; PRV_ZERO channels. Tie: X1 the real chan.c/"
               "bay.c/mux.c/track.c in an ASan/UBSan harness vs the Lean bay on random networks (values, last values, dirty "
               "flags, selected/enabled inputs, dirty-list and emit order) plus a spec oracle; X2 ovniemu vs the reference "
               "emulator and independent oracles recomputing every thread row from the raw history and every CPU row from the "
@@ -166,7 +172,7 @@ CHECKS = {
         technique="Lean 4 iff theorem over the channel stack model + whole-table decide over regenerated tables + differential ovniemu runs",
         design="DESIGN.md §5 C08"),
     "C09": dict(
-        text=("Theorems (Props/C09.lean, 7) over Rt/Fs.lean: the runtime's libc calls as a list produced by a transcription of "
+        text=("Theorems (Props/C09.lean, 10) over Rt/Fs.lean: the runtime's libc calls as a list produced by a transcription of "
               "ovni_proc_init / thread_init / flushes / attr_flush / thread_free (metadata store = fopen, fputs, fclose; the "
               "relocation of OVNI_TMPDIR mode) / proc_fini over an abstract file system; a crash = any prefix of the call list "
               "plus any prefix of what stdio had buffered: for every program, every crash point, every stdio state, both "
@@ -174,14 +180,16 @@ CHECKS = {
               "exactly what its thread had flushed (crash_consistent), and finished=1 visible in the final directory implies "
               "the final stream.obs is complete (finished_after_data); the same for every interleaving of several threads' "
               "calls (crash_consistent_any_schedule, finished_after_data_any_schedule); 'complete' is the disk content of the "
-              "C01/C02 buffer model (obsBytes_is_buffer_disk). Full strength for the code after the repairs 5598237 + a18b720; "
+              "C01/C02 buffer model (obsBytes_is_buffer_disk); the two facts the model needs about JSON (a written stream.json "
+              "is read back, every proper prefix of it is refused) are no longer parameters: they are theorems of the parson "
+              "model (crash_consistent_parson, finished_after_data_parson, crash_consistent_any_schedule_parson). Full strength for the code after the repairs 5598237 + a18b720; "
               "the statements are proved FALSE for the code before them (crash_consistent_before_fix, "
               "finished_after_data_before_fix, decide witnesses replayed on libovni). Tie: the real ovni.c with interposed "
               "libc (rt harness): the logged call sequence equals the model's call list in direct and TMPDIR mode; a kill "
               "before EVERY intercepted call of generated programs, the remains must be a crash state of the model, and "
               "`ovniemu -l` on the remains must not accept while flushed events are missing."),
         note=TB + "; PARTIAL BY NATURE: a process kill only (completed system calls persist) - no power loss, no page-cache model; "
-             "JSON is a codec parameter (round trip, proper prefixes do not parse); single-thread correspondence",
+             "JSON codec = the parson model of Props/Json (tied to parson.c by the C12 correspondence); single-thread correspondence",
         technique="Lean 4 prefix invariants over the runtime's file-system call list + kill-injection differential runs of libovni and ovniemu",
         design="DESIGN.md §5 C09"),
     "C10": dict(
@@ -222,7 +230,7 @@ CHECKS = {
         technique="Lean 4 unwinding/non-interference proofs over a generated-footprint interleaving model + multi-threaded differential runs + TSan",
         design="DESIGN.md §5 C11"),
     "C12": dict(
-        text=("Theorems (Props/C12.lean, 19) over a byte-level model of check_stream_header / load_obs / stream_step with the exact C "
+        text=("Theorems (Props/C12.lean + Props/Json.lean, 30) over a byte-level model of check_stream_header / load_obs / stream_step with the exact C "
               "integer casts and ARBITRARY memory beyond the file: valid streams are accepted (non-vacuity); any single header "
               "byte replaced by any other value, and files shorter than 8 bytes, are refused (bad_header_rejected, "
               "short_header_rejected); a cut strictly inside the last event is refused (Fixed.truncation_rejected, full strength "
@@ -235,9 +243,15 @@ CHECKS = {
               "wrong_payload_size_rejected); the sticky is_jumbo of the old emu_ev is kept as a witness. Tie: the real stream.c "
               "in an ASan harness vs the Lean cursor (every offset, accept/error, over-read), and `ovniemu -l` on every single "
               "corruption of generated valid traces (thorough: all 255 wrong values of each header byte, every cut, every "
-              "adjacent swap, every mandatory key, the version each stream requires of each model): exit != 0 and no 'emulation finished ok'."),
+              "adjacent swap, every mandatory key, the version each stream requires of each model, an undeclared MCV of every required "
+              "model): exit != 0 and no 'emulation finished ok'. The metadata record is computed by a Lean model of parson "
+              "(OvniModel/Json.lean: comments, parser, getters, dotset, pretty serializer) from the raw stream.json bytes; "
+              "Props/Json proves round trip on the libovni-writable class, rejection of EVERY strict prefix of a serialized "
+              "object/array/string (truncated_json_rejected: a cut stream.json is refused), trailing text ignored, dotset/dotget "
+              "laws and totality with fuel 2n+1; the model is tied to the real parson.c (ASan/UBSan harness) on metadata-shaped "
+              "and random documents, getters, dotset sequences, serialization, every truncation and byte mutations."),
         note=TB + "; int = 32-bit wrap, int64 offsets unbounded; metadata is logic over what the parson getters return (parson "
-             "assumed); unknown MCV inside an enabled model and handler size guards are carried by the e2e correspondence",
+             "modelled, Props/Json; its correspondence is generator-bounded; non-dyadic number spellings compared on grammar only); unknown MCV inside an enabled model and handler size guards are carried by the e2e correspondence",
         technique="Lean 4 theorems over a byte-level cursor with adversarial out-of-file memory + single-corruption differential runs",
         design="DESIGN.md §5 C12"),
     "C13": dict(
@@ -362,12 +376,13 @@ CHECKS = {
               "(size fields, flags, truncation, payload shapes, JSON types) through ovniemu, ovnidump, ovnitop, ovnisort built "
               "with ASan+UBSan and the OVNI_VERIF heap-buffer hook, 5 s timeout: exit 0 or 1 only. Seven defects found and "
               "repaired (see KNOWN_FINDINGS.txt)."),
-        note=TB + "; PARTIAL BY NATURE: parson on arbitrary JSON, the die()->abort policy and everything behind the front end "
-             "(handlers, PCF writers) are covered only by the sanitizer runs, not by theorems",
+        note=TB + "; PARTIAL BY NATURE: the die()->abort policy and everything behind the front end (handlers, PCF writers) "
+             "are covered only by the sanitizer runs, not by theorems; parson is modelled (Props/Json: total, prefix-rejecting) and "
+             "run against parson.c under ASan/UBSan on mutated documents in the C12 check",
         technique="Lean 4 termination/bounds theorems over a byte-level cursor + sanitizer-instrumented mutation runs of the four tools",
         design="DESIGN.md §5 C19"),
     "C20": dict(
-        text=("Theorems (Props/C20.lean, 28): sort_replace = insertSorted . erase under its preconditions, hence sorted and an exact "
+        text=("Theorems (Props/C20.lean, 34): sort_replace = insertSorted . erase under its preconditions, hence sorted and an exact "
               "multiset update (sort_replace_spec, sort_replace_sorted_multiset); after every history of input changes the sort "
               "rows are non-decreasing and a permutation of the inputs (rows_are_sorted_values, for any qsort that returns a sorted "
               "permutation, any n); an output is written iff its value changes, in increasing index order (minimal_writes, "
@@ -376,7 +391,8 @@ CHECKS = {
               "characterised (breakdown_value, fresh_after_ss, fresh_preserved_iff, stale_select_classes); the order in which a "
               "CPU's task-type/subsystem/idle channels enter the dirty list (orderOk) is DERIVED from the registration order of "
               "the connected bay for thread-state and affinity events (dirty_level_ordered_sys, _thread_events, "
-              "_affinity_events) and stays a hypothesis for the task events VTx/VTe/VTp/VTr (OPEN: task-layer hook); system_rows: rows = "
+              "_affinity_events) and for the task events VTx/VTe/VTp/VTr and their Nanos6 analogues (dirty_level_ordered_task, "
+              "_emu: the C order is ss before tt, idle is not written); OPEN: table events writing the idle channel (VPp/VPr/VPa); system_rows: rows = "
               "sorted(per-CPU values). Tie: the real sort.c and the real nosv/nanos6 breakdown.c (connect_cpu, select_tr, "
               "select_idle) in an ASan/UBSan harness, bounded-exhaustive + random, vs the Lean model and a property oracle; "
               "`ovniemu -b -l` on random nOS-V/Nanos6 traces vs an oracle recomputed from cpu.prv and vs the model. Four "
